@@ -190,6 +190,23 @@ pub fn run(opts: &Opts, rep: &Report) {
         rep.distinct_hashes(&hs);
         done += chunk.len();
     }
+    // calibration of the reference solver against real solvers on a slice of the sessions
+    let n_cal = if tier.is_thorough() { 400 } else { 32 };
+    let stride = (all.len() / n_cal).max(1);
+    let sample: Vec<&Case> = all.iter().step_by(stride).take(n_cal).collect();
+    let jobs: Vec<Value> = sample.iter().map(|c| job(&c.spec, &c.cfg, json!({}), true)).collect();
+    let results = run_jobs(&jobs, threads, Duration::from_secs(30));
+    for r in results.iter() {
+        if let Some(log) = r["log"].as_str() {
+            match crate::calibrate::cross_check(log) {
+                Ok(n) => rep.add("check_sat_answers_confirmed_by_real_solvers", n),
+                Err(e) => {
+                    eprintln!("MACHINERY: calibration disagreement: {e}");
+                    std::process::exit(2);
+                }
+            }
+        }
+    }
 }
 
 pub fn cfg_json(c: &McCfg) -> Value {
